@@ -1,7 +1,7 @@
 (* utils/pipe.go: NetFlowPipe.DecodeFlow with the producer of producer/proto/proto.go
    (repaired tree: flows decoded next to an unknown-template set are still produced). *)
 From Coq Require Import String NArith List Bool.
-From GF Require Import Base.Res Base.Bytes Base.Layout Model.Msg Model.NF Model.NFv5 Model.Packet Model.ProdNF.
+From GF Require Import Base.Res Base.Bytes Base.Layout Model.Msg Model.NF Model.NFv5 Model.Packet Model.ProdNF Model.SFlow Model.ProdSF.
 Import ListNotations.
 Open Scope N_scope.
 
@@ -57,6 +57,35 @@ Definition nf_step (cfg : prodcfg) (st : pstate) (e : exporter) (tr : N) (d : by
   | Panic => Panic | OutOfFuel => OutOfFuel
   end.
 
+(* SFlowPipe.DecodeFlow *)
+Definition sf_step (cfg : prodcfg) (st : pstate) (e : exporter) (tr : N) (d : bytes) : res stepres :=
+  match decode_sf d with
+  | Ok p =>
+      match produce_sf (pPacket cfg) tr p with
+      | Ok ms => Ok (st, ONone, ms)
+      | Err _ => Ok (st, OErr, [])
+      | Panic => Panic | OutOfFuel => OutOfFuel
+      end
+  | Err _ => Ok (st, OErr, [])
+  | Panic => Panic | OutOfFuel => OutOfFuel
+  end.
+
+(* AutoFlowPipe.DecodeFlow: protocol sniffing on the first four bytes *)
+Definition flow_step (cfg : prodcfg) (st : pstate) (e : exporter) (tr : N) (d : bytes) : res stepres :=
+  match rd 4 d with
+  | Ok (proto, _) =>
+      if proto =? 5 then sf_step cfg st e tr d
+      else let v := proto / 65536 in
+           if (v =? 5) || (v =? 9) || (v =? 10) then nf_step cfg st e tr d
+           else Ok (st, OErr, [])
+  | Err _ => Ok (st, OErr, [])
+  | Panic => Panic | OutOfFuel => OutOfFuel
+  end.
+
+Inductive pipekind := PKNetFlow | PKSFlow | PKFlow.
+Definition pipe_step (k : pipekind) :=
+  match k with PKNetFlow => nf_step | PKSFlow => sf_step | PKFlow => flow_step end.
+
 Local Open Scope string_scope.
 Definition show_outcome (o : outcome) : tok :=
   match o with ONone => TS "ok" | OErr => TS "err" | OTnf => TS "tnf" end.
@@ -71,10 +100,11 @@ Definition step_state (st : pstate) (r : res stepres) : pstate :=
   match r with Ok (st', _, _) => st' | _ => st end.
 
 (* a history: (exporter, receive time, datagram) list through one pipe *)
-Fixpoint nf_run (cfg : prodcfg) (st : pstate) (h : list (exporter * N * bytes)) : list tok :=
+Fixpoint pipe_run (k : pipekind) (cfg : prodcfg) (st : pstate) (h : list (exporter * N * bytes)) : list tok :=
   match h with
   | [] => []
   | (e, tr, d) :: r =>
-      let s := nf_step cfg st e tr d in
-      show_step s ++ TS "|" :: nf_run cfg (step_state st s) r
+      let s := pipe_step k cfg st e tr d in
+      show_step s ++ TS "|" :: pipe_run k cfg (step_state st s) r
   end.
+Definition nf_run := pipe_run PKNetFlow.
